@@ -227,12 +227,20 @@ func (bm *fBM) Finalize(bc module.BlockCandidate) error {
 	if blk.Height() != bm.last.Height()+1 || !bytes.Equal(blk.PrevID(), bm.last.ID()) {
 		return fmt.Errorf("finalize: not a child of last block")
 	}
+	// Finalize is an externally visible, durable effect (the real block manager
+	// writes the block to its database before it returns): a crash can fall
+	// right before it, and what was finalized survives a restart.
+	bm.node.effect("finalize")
 	bm.blocks[blk.Height()] = blk
 	bm.last = blk
+	bm.node.durable = append(bm.node.durable, blk)
 	bm.node.finalized = append(bm.node.finalized, hex.EncodeToString(blk.ID()))
 	bm.node.finalizedRound = append(bm.node.finalizedRound, bm.node.cs.commitRound)
+	ok, why := bm.node.recountCert(blk)
 	if len(bm.node.finalized) == 1 {
-		bm.node.finCertOK, bm.node.finCertWhy = bm.node.recountCert(blk)
+		bm.node.finCertOK, bm.node.finCertWhy = ok, why
+	} else if !ok && bm.node.finCertOK {
+		bm.node.finCertOK, bm.node.finCertWhy = false, fmt.Sprintf("height %d: %s", blk.Height(), why)
 	}
 	return nil
 }
@@ -466,6 +474,7 @@ type csNode struct {
 	onSend         func(proto uint16, b []byte)
 	finalized      []string
 	finalizedRound []int32
+	durable        []*fBlock // finalized chain above genesis: the block store survives restarts
 	panicked       string
 	dsReports      int
 	finCertOK      bool
@@ -536,6 +545,10 @@ func (n *csNode) boot() {
 	n.nm = &fNM{node: n}
 	n.sm = &fSM{node: n}
 	n.bm = &fBM{node: n, blocks: map[int64]*fBlock{0: n.env.genesis}, last: n.env.genesis}
+	for _, b := range n.durable {
+		n.bm.blocks[b.Height()] = b
+		n.bm.last = b
+	}
 	vclock.Use(n.world)
 	n.cs = New(n.chain, "wal", n.wal, nil, nil, nil, 0)
 	n.guard(func() {
